@@ -831,7 +831,9 @@ pub fn c19_strategy() -> BoxedStrategy<RespCase> {
             .into_iter()
             .map(|mut h| {
                 if h.name.eq_ignore_ascii_case("content-length") && !h.value.is_empty() && h.value.bytes().all(|b| b.is_ascii_digit()) && h.value.len() < 19 {
-                    h.value = body_len.to_string();
+                    // (an empty response that answers a HEAD request declares the length of what a GET
+                    // would have been sent: a template kept, and cloned, for such answers)
+                    h.value = if empty && !with_data && head { len.to_string() } else { body_len.to_string() };
                 }
                 if ctor != Ctor::New && h.via == Via::Ctor {
                     h.via = Via::Add;
